@@ -9,6 +9,7 @@ open Cppcheck.Wire Cppcheck.SevGate Cppcheck.Gen.SeverityGuards
      V <row>          the per-row decisions the theorems of Props/C27.lean rest on:
                       gateOk gateOkCli incOk posOk refutesGate refutesInc                             -> six 0/1 digits
      N                number of rows / flags                                                          -> "<rows> <nFlags>"
+     F <mask> <digits> Select.findValue on the value list <digits> (digit bits: inconclusive, condition, pred)  -> index | -
 -/
 namespace Driver.C27
 
@@ -31,6 +32,14 @@ def step (line : String) : String :=
       | none => "norow"
     | none => "bad"
   | ["N"] => toString table.size ++ " " ++ toString nFlags
+  | ["F", m, ds] =>
+    match m.toNat? with
+    | some m =>
+      let digits := if ds == "-" then [] else ds.toList.map (fun c => c.toNat - 48)
+      match Select.findValue (Opts.ofMask m) (Select.ofDigits digits) with
+      | some v => toString v.tag
+      | none => "-"
+    | none => "bad"
   | _ => "bad"
 
 end Driver.C27
